@@ -83,9 +83,69 @@ def make_server(script, retries, delay, clock, trace):
     return s
 
 
+def make_server_tty(script, retries, delay, clock, trace, bauds=(115200, None)):
+    """The real serial backend (ubxlib.server_tty.GnssUBlox) over a scripted serial line (backends.LineSerial) that follows
+    the same script. bauds = (constructor bit rate, bit rate set later through set_baudrate() or None)."""
+    from . import backends as BK
+    import ubxlib.server_base as SB
+    SB.time = clock
+    srv, T, ok = BK.tty_server(bauds[0], BK.LineSerial)
+    T.time = clock
+    port = srv.serial_port
+    if not ok or not port.is_open:
+        raise RuntimeError('tty backend: setup() failed on the stub port')
+    if bauds[1] is not None:
+        srv.set_baudrate(bauds[1])
+    port.receiver_baud = port.baudrate
+    port.clock = clock
+    port.trace = trace
+    port.pending = list(script['pending'])
+    port.future = [(ok_, list(evs)) for ok_, evs in script['attempts']]
+    port.idle = script['idle']
+    port.tx_dt = script.get('tx_dt', 0)
+    port.babble = script.get('babble')
+    srv.set_retries(retries)
+    srv.set_retry_delay(delay)
+    for what, val in script.get('bad_cfg', ()):
+        try:
+            (srv.set_retries if what == 'retries' else srv.set_retry_delay)(val)
+        except AssertionError:
+            pass
+    return srv
+
+
+def bytewise(script):
+    """The same receiver behaviour delivered one byte per read (what a serial line gives); empty reads are timeouts."""
+    def split(evs):
+        out = []
+        for d, dt in evs:
+            if not d:
+                out.append((None, dt))
+            else:
+                out += [(d[k:k + 1], dt if k == 0 else 0) for k in range(len(d))]
+        return out
+    return dict(script, pending=split(script['pending']), attempts=[(ok, split(evs)) for ok, evs in script['attempts']], drain=False)
+
+
+def script_bytes(script):
+    return sum(len(d or b'') for d, _ in script['pending']) + sum(len(d or b'') for _, evs in script['attempts'] for d, _ in evs)
+
+
 def trace_tokens(trace):
     out = []
-    for ev in trace:
+    k = 0
+    while k < len(trace):
+        ev = trace[k]
+        k += 1
+        if ev[0] == 'B':
+            # the serial backend's link recovery: bit rate to 9600 and back to what it was
+            nxt = trace[k] if k < len(trace) else None
+            if ev[2] == 9600 and nxt is not None and nxt[0] == 'B':
+                k += 1
+                out.append('V' if nxt[2] == ev[1] else f'V!{nxt[2]}')
+            else:
+                out.append(f'B{ev[2]}')
+            continue
         if ev[0] == 'T':
             out.append('T' + C.hexs(ev[1]) + ('+' if ev[2] else '!'))
         elif ev[0] == 'R':
@@ -109,13 +169,17 @@ def frame_token(fr):
     return f'{type(fr).__name__}:{C.hexs(fr.data)}:{dec}'
 
 
-def run_impl(script, retries, delay, reqs, loglevel=None):
-    """Runs a sequence of requests on ONE stub server. reqs: list of (op, frame-builder).
+def run_impl(script, retries, delay, reqs, loglevel=None, backend='stub', bauds=(115200, None), alarm_s=30):
+    """Runs a sequence of requests on ONE server object (a scripted subclass of the base class, or the real serial
+    backend over a scripted line). reqs: list of (op, frame-builder).
     Returns the canonical string (same format as the driver's `reqs` command)."""
     import logging
     clock = VClock()
     trace = []
-    srv = make_server(script, retries, delay, clock, trace)
+    if backend == 'tty':
+        srv = make_server_tty(script, retries, delay, clock, trace, bauds)
+    else:
+        srv = make_server(script, retries, delay, clock, trace)
     out = []
     old = signal.signal(signal.SIGALRM, _alarm)
     lg = logging.getLogger('ubxlib')
@@ -131,7 +195,7 @@ def run_impl(script, retries, delay, reqs, loglevel=None):
         for op, build in reqs:
             del trace[:]
             t0 = clock.ms
-            signal.alarm(30)
+            signal.alarm(alarm_s)
             try:
                 fr = build()
                 fn = {'poll': srv.poll, 'set': srv.set, 'mga': srv.set_mga, 'fire': srv.fire_and_forget}[op]
